@@ -130,7 +130,8 @@ add("C18",
     "(F, Q, any fixed direction set) mean width: non-negative, translation invariant, positively homogeneous, monotone under adding points, unchanged by centring; gamut metric: "
     "scale invariant, 1 relative to itself, <= 1 relative to a superset, and <= 1 for ANY cloud of non-negative combinations S R of the reference points R (mean width is monotone under "
     "convex combinations; L1-normalisation + linear barycentric reduction turn non-negative into convex combinations): the estimator's fractional gamut in absolute capture is at most 1; "
-    "the reduced-fraction executable model equals the specification model. (F, R) Jensen-Shannon divergence: "
+    "the reduced-fraction executable model equals the specification model; the exact reference volumes (shoelace polygon area, simplex |det|/d!, box) are translation "
+    "invariant and homogeneous of degree d. (F, R) Jensen-Shannon divergence: "
     "symmetric, normalisation invariant, zero exactly for proportional inputs, within [0, 1 bit]. Tie: compute_mean_width / compute_gamut re-computed exactly with the regenerated "
     "directions; compute_volume against shoelace polygons, simplices (det/d!), boxes (also k-dim boxes moved rigidly into R^D), 1-D extents; ReceptorEstimator.compute_gamut(relative=False, "
     "fraction=True) against the exact model on independently recomputed S and R with 0 < value <= 1 in the verdict; JS values enclosed by one Coq Interval goal per case.",
